@@ -89,6 +89,25 @@ Theorem C03_cci_value : forall p h tp, let w := lastn p (h ++ [tp]) in madev w <
   cci_spec p h tp = Fin ((tp - mean w) / (0.015 * madev w))%R.
 Proof. exact cci_value. Qed.
 
+(* RateOfChange for EVERY number type (so bit-exactly for binary64): the output after any history is ((x - r) / r) * 100 computed in that
+   number type, r = the first price until n earlier prices exist, then the price n steps back (head of the last n prices) *)
+From Coq Require Import List Floats.
+From TA Require Import FloatInst Proofs.Wiring Proofs.GRoc.
+Theorem C03_roc_any_carrier : forall (F : Type) (O : Ops F) p s xs, roc_new O p = Ok s ->
+  res_outs (roc_next O) s xs = groc_stream O (N.to_nat p) [] xs.
+Proof. exact @groc_refines. Qed.
+Theorem C03_roc_stream_def : forall (F : Type) (O : Ops F) p h x xs,
+  groc_stream O p h [] = [] /\
+  groc_stream O p h (x :: xs) = Base.mul O (Base.div O (Base.sub O x (hd x (lastn p h))) (hd x (lastn p h))) (c100 O) :: groc_stream O p (h ++ [x]) xs.
+Proof. intros. split; reflexivity. Qed.
+(* ... hence on binary64 three correctly rounded operations on exact window values: relative error 4 * 2^-53 (Flocq) *)
+From Flocq Require Import Core.
+From TA Require Import Proofs.FloatErr Proofs.FloatRoc.
+Theorem C03_roc_binary64_error : forall p s xs, roc_new FOps p = Ok s -> Forall goodp xs ->
+  Forall2 (fun o rho => finF o /\ (Rabs (FR o - rho) <= 4 * u * Rabs rho + tiny)%R)
+          (res_outs (roc_next FOps) s xs) (roc_real_stream (N.to_nat p) [] xs).
+Proof. exact roc_float_error. Qed.
+
 From Coq Require Import List Floats.
 From TA Require Import Generic FloatInst XQ Run2 Par.Hom Par.Var Par.Oracle.
 (* the T2 oracle (exact rational run, evaluated by the checks) is the image of the exact real run these
